@@ -30,6 +30,12 @@ def stores(fl):
 
 
 def run(ix, R):
+    _run(ix, R)
+    from rules.common import memo_obligation
+    memo_obligation(ix, R, 'M.memo', ['taurex/core/priors.py', 'taurex/util/fitting.py'], 'the priors')
+
+
+def _run(ix, R):
     m = ix.module(PR)
     R.check('1.scipy', 'TAB', PR, '`stats` is scipy.stats', m.imports.get('stats') == ('scipy.stats', None),
             key='stats -> %s' % (m.imports.get('stats'),), detail='stats is %s' % (m.imports.get('stats'),))
